@@ -356,13 +356,14 @@ func (api *API) mapDecodeInterface(
 		return ierrors.Wrapf(ErrInterfaceUnderlyingTypeNotRegistered, "object code: %d, interface: %s", objectCode, valueType)
 	}
 
-	// like mapEncodeInterface, which encodes the element with the type settings registered for the element's own
-	// type: the settings of the interface-typed field do not apply to it (its field key would otherwise be taken
-	// for the key of the hex string inside a byte array object).
-	objectTS, _ := api.typeSettingsRegistry.GetByType(objectType)
+	// the field key of the interface-typed field names the entry that holds this object, it is not a setting of
+	// the element: handed down, it would be taken for the key of the hex string inside a byte array object
+	// (mapEncodeInterface encodes the element under the key registered for the element's own type).
+	// The other field-level settings (minLen, maxLen, ...) still apply to the element.
+	ts.fieldKey = nil
 
 	objectValue := reflect.New(objectType).Elem()
-	if err := api.mapDecode(ctx, m, objectValue, objectTS, opts); err != nil {
+	if err := api.mapDecode(ctx, m, objectValue, ts, opts); err != nil {
 		return ierrors.WithStack(err)
 	}
 	value.Set(objectValue)
